@@ -10,6 +10,8 @@ def run(ctx):
     for i in range(n):
         s = Subject(ctx)
         ops_arrow.case_interchange(ctx, s)
+        if i % 10 == 1:
+            ops_arrow.case_type_request_values(ctx)
         if i % 4 == 2:
             # the same after rows were replaced / made missing in place
             s2 = Subject(ctx, allow_hidden=False)
